@@ -149,6 +149,9 @@ type streamHandler struct {
 	ch     chan *goatorepo.Rpc
 	done   chan struct{}
 	cancel context.CancelFunc
+	// gone is closed (it is the stream context's Done channel) before the
+	// stream's goroutine unregisters itself: nobody reads ch any more
+	gone <-chan struct{}
 }
 
 // handler for a specific goat.RpcReadWriter
@@ -473,6 +476,10 @@ func (h *handler) processStreamingRpc(
 		} else {
 			select {
 			case handler.ch <- rpc:
+			case <-handler.gone:
+				// The handler has returned without reading this message.
+				// Waiting for it here would deadlock with unregisterStream,
+				// which needs h.mu.
 			case <-clientCtx.Done():
 				return clientCtx.Err()
 			case <-h.ctx.Done():
@@ -516,6 +523,7 @@ func (h *handler) processStreamingRpc(
 		ch:     make(chan *goatorepo.Rpc, 1),
 		done:   make(chan struct{}, 1),
 		cancel: cancel,
+		gone:   ctx.Done(),
 	}
 
 	go h.runStream(info, sd, rpc, streamId, ctx, h.streams[streamId])
